@@ -460,11 +460,27 @@ def c05(run):
 
 
 # ------------------------------------------------------------------------------ C03
-def partition_pipeline(run, prop, classify, only_limits=False, graphs=True):
+def _strip_sample(x):
+    """res / {res, post} records without the in-flight sample of a grant (C20's business)."""
+    if isinstance(x, dict):
+        d = {k: _strip_sample(v) for k, v in x.items() if k != "sample"}
+        return d if d else []   # TLA+'s empty function prints as an empty tuple
+    return x
+
+
+def _only_sample_differs(exp, got):
+    try:
+        a, b = (json.loads(exp) if isinstance(exp, str) else exp), (json.loads(got) if isinstance(got, str) else got)
+    except Exception:
+        return False
+    return a != b and _strip_sample(a) == _strip_sample(b)
+
+
+def partition_pipeline(run, prop, classify, only_limits=False, graphs=True, samples=False):
     """Shared by C03 (admission/bins) - the same machinery also yields the share observations of C05."""
     th = run.tier == "thorough"
     if not graphs:
-        return partition_random(run, prop, classify, only_limits)
+        return partition_random(run, prop, classify, only_limits, samples)
     # 1. design level: the contract's consequences in every reachable state (small constants)
     suffix = "_th" if th else ""
     for kind in ("lookup", "predicate"):
@@ -484,6 +500,11 @@ def partition_pipeline(run, prop, classify, only_limits=False, graphs=True):
     for kind in ("lookup", "predicate"):
         rep = json.load(open(os.path.join(out, "replay_%s.json" % kind)))
         for m in graph_report(run, prop, rep, "Partition/" + kind):
+            # the in-flight sample a grant emits belongs to C20 (samples=True: only those mismatches); everybody else looks
+            # at the rest of the result and at the state
+            sample_only = m["exp_obs"] == m["got_obs"] and _only_sample_differs(m["exp_res"], m["got_res"])
+            if sample_only != samples:
+                continue
             if only_limits:
                 try:
                     a, b = json.loads(m["exp_obs"] or "{}"), json.loads(m["got_obs"] or "{}")
@@ -497,10 +518,10 @@ def partition_pipeline(run, prop, classify, only_limits=False, graphs=True):
                 {"kind": kind, "mismatch": m, "rerun": "bin/check %s" % prop}, sig)
         exhaustive = exhaustive and rep["edges_unreachable"] == 0
     run.exhaustive = exhaustive
-    partition_random(run, prop, classify, only_limits)
+    partition_random(run, prop, classify, only_limits, samples)
 
 
-def partition_random(run, prop, classify, only_limits=False):
+def partition_random(run, prop, classify, only_limits=False, samples=False):
     th = run.tier == "thorough"
     # 3. code -> model: random long histories with large limits, dyadic fractions, dynamic partitions
     n = 800 if th else 200
@@ -513,6 +534,8 @@ def partition_random(run, prop, classify, only_limits=False):
     run.events += len(rows)
     run.sample({"trace_excerpt": rows[:4]})
     for rj in rejects:
+        if _only_sample_differs(rj.get("expected"), rj.get("logged")) != samples:
+            continue
         if only_limits:
             e, g = rj.get("expected") or {}, rj.get("logged") or {}
             ep, gp = (e.get("post") or e), (g.get("post") or g)
@@ -777,6 +800,36 @@ def c15(run):
 def c16(run):
     limits_pipeline(run, "C16", {"notify"}, vegas=False)
     windowed_part(run, "C16", estimate_only=True)
+    # the two limits no sample moves: settable (explicit sets, also two sets overtaking each other) and fixed
+    out, _ = run.go("^TestSettableRandom$", env={"VERIF_N": 600 if run.tier == "thorough" else 90, "VERIF_RACES": 200000 if run.tier == "thorough" else 30000}, timeout=600)
+    info = json.load(open(os.path.join(out, "settable.json")))
+    run.extra["settable"] = info
+    if info["sets"] < 50:
+        raise Machinery("settable sequences are vacuous: %s" % info)
+    sp = os.path.join(out, "settable_trace.ndjson")
+    rejects, total = validate_sharded(run, "LimitTrace", "Limit_trace.cfg", sp)
+    run.events += total
+    run.traces += info["sequences"] + info["set_races"]
+    rows = None
+    seen = set()
+    for rj in rejects:
+        lg = rj["logged"]
+        if lg.get("ev") == "Concurrent":
+            if "race" in seen:
+                continue
+            seen.add("race")
+            run.report("settable limit: explicit sets issued at once were delivered as %s, the listener was last told %s but EstimatedLimit reports %s" % (
+                lg.get("delivered"), lg.get("last"), lg.get("est")), {"reject": rj, "rerun": "bin/check C16"}, {"algo": "settable", "class": "notify-concurrent"})
+            continue
+        if rj["class"] != "notify" or rj["trace"] in seen:
+            continue
+        seen.add(rj["trace"])
+        if rows is None:
+            rows = vlib.read_ndjson(sp)
+        tr = [x for x in rows if x["trace"] == rj["trace"] and x.get("i", 0) <= rj["i"]]
+        cfg = tr[0]["cfg"] if tr else {}
+        run.report("%s limit (%s): step %d of recorded sequence %d rejected by the contract (%s)" % (cfg.get("algo"), cfg.get("wrap"), rj["i"], rj["trace"], rj["why"]),
+                   {"config": cfg, "sequence": tr[-30:], "reject": rj, "rerun": "VERIF_SEED=%d bin/check C16" % run.seed}, {"algo": cfg.get("algo"), "class": "notify"})
     # two samples racing (real time, bounded wait): the parked notification must not be overtaken
     out, _ = run.go("^TestNotifyAttack$", timeout=300)
     run.extra["notify_attack"] = json.load(open(os.path.join(out, "notify.json")))
@@ -941,6 +994,8 @@ def c20(run):
             return {"kind": "default", "what": "limit gauge"}
         return None
     limiter_pipeline(run, "C20", lambda m: {"kind": "default", "what": "emission"} if _res_field_differs(m, "inflight") else None, lim_rj, graphs=th)
+    # partitioned strategies: a grant emits one in-flight sample tagged with the partition charged, valued at its count
+    partition_pipeline(run, "C20", lambda kind, m: {"kind": kind, "what": "partition sample"}, graphs=th, samples=True)
     # free-running goroutines: the in-flight sample of every acquire is the count at its linearisation point
     gate_stress(run, "C20", 1000 if th else 150, check_n=True)
     # every processed sample of every limit algorithm emits one RTT, one in-flight and a drop increment iff drop (LimitTrace class metrics)
